@@ -48,15 +48,41 @@ func (idProvider) GetNoAlloc(name string) uint64 { return 0 }
 type cRule struct {
 	Act       string // allow deny pass next-tier log
 	Pr, NotPr string // "" or number or name
-	// literal IPv4 CIDRs, encoded <8 hex digits>_<prefix length>
+	// literal CIDRs, encoded <8 hex digits>_<prefix length> (IPv4) or <32 hex digits>_<prefix length> (IPv6)
 	Src, NotSrc, Dst, NotDst []string
+	IPVer                    int // proto.Rule.IpVersion: 0 (any), 4, 6
 }
 
-func (r *cRule) hasNets() bool { return len(r.Src)+len(r.NotSrc)+len(r.Dst)+len(r.NotDst) > 0 }
+func (r *cRule) hasNets() bool { return len(r.Src)+len(r.NotSrc)+len(r.Dst)+len(r.NotDst) > 0 || r.IPVer != 0 }
+
+func isV6Enc(e string) bool { return len(strings.Split(e, "_")[0]) == 32 }
+
+// otherFamily: the rule names the other IP family (explicit version 6, or an IPv6 CIDR).
+func (r *cRule) otherFamily() bool {
+	if r.IPVer == 6 {
+		return true
+	}
+	for _, l := range [][]string{r.Src, r.NotSrc, r.Dst, r.NotDst} {
+		for _, e := range l {
+			if isV6Enc(e) {
+				return true
+			}
+		}
+	}
+	return false
+}
 
 // cidrStr turns the encoded CIDR into the API string (a.b.c.d/n).
 func cidrStr(e string) string {
 	f := strings.Split(e, "_")
+	if len(f[0]) == 32 {
+		ip := make(net.IP, 16)
+		for i := 0; i < 16; i++ {
+			b, _ := strconv.ParseUint(f[0][2*i:2*i+2], 16, 8)
+			ip[i] = byte(b)
+		}
+		return ip.String() + "/" + f[1]
+	}
 	v, _ := strconv.ParseUint(f[0], 16, 32)
 	return fmt.Sprintf("%d.%d.%d.%d/%s", byte(v>>24), byte(v>>16), byte(v>>8), byte(v), f[1])
 }
@@ -124,6 +150,9 @@ func rulesS(rs []cRule) string {
 		tok := actCode[r.Act] + "." + pr + "." + np
 		if r.hasNets() {
 			tok += "." + cNetsS(r.Src) + "." + cNetsS(r.NotSrc) + "." + cNetsS(r.Dst) + "." + cNetsS(r.NotDst)
+			if r.IPVer != 0 {
+				tok += "." + strconv.Itoa(r.IPVer)
+			}
 		}
 		out = append(out, tok)
 	}
@@ -172,7 +201,7 @@ func parseRulesS(s string) []cRule {
 	var out []cRule
 	for _, t := range strings.Split(s, ",") {
 		f := strings.Split(t, ".")
-		if (len(f) != 3 && len(f) != 7) || codeAct[f[0]] == "" {
+		if (len(f) != 3 && len(f) != 7 && len(f) != 8) || codeAct[f[0]] == "" {
 			panic("bad rule " + t)
 		}
 		r := cRule{Act: codeAct[f[0]]}
@@ -182,8 +211,11 @@ func parseRulesS(s string) []cRule {
 		if f[2] != "x" {
 			r.NotPr = f[2]
 		}
-		if len(f) == 7 {
+		if len(f) >= 7 {
 			r.Src, r.NotSrc, r.Dst, r.NotDst = cParseNetsS(f[3]), cParseNetsS(f[4]), cParseNetsS(f[5]), cParseNetsS(f[6])
+		}
+		if len(f) == 8 {
+			r.IPVer, _ = strconv.Atoi(f[7])
 		}
 		out = append(out, r)
 	}
@@ -235,13 +267,52 @@ func toProtoP(s string) *proto.Protocol {
 	return &proto.Protocol{NumberOrName: &proto.Protocol_Name{Name: s}}
 }
 
+// alpFilterFamily: feed the checker only what rules.FilterRuleToIPVersion(4, ·) (the REAL function the
+// dataplanes apply) leaves of each rule; used only to attribute a disagreement to the known finding.
+var alpFilterFamily bool
+
+func protoRulesAlp(rs []cRule) []*proto.Rule {
+	out := protoRules(rs)
+	if !alpFilterFamily {
+		return out
+	}
+	var keep []*proto.Rule
+	for _, r := range out {
+		if f := rules.FilterRuleToIPVersion(4, r); f != nil {
+			keep = append(keep, f)
+		}
+	}
+	return keep
+}
+
 func protoRules(rs []cRule) []*proto.Rule {
 	var out []*proto.Rule
 	for _, r := range rs {
 		out = append(out, &proto.Rule{Action: r.Act, Protocol: toProtoP(r.Pr), NotProtocol: toProtoP(r.NotPr),
-			SrcNet: cidrStrs(r.Src), NotSrcNet: cidrStrs(r.NotSrc), DstNet: cidrStrs(r.Dst), NotDstNet: cidrStrs(r.NotDst)})
+			SrcNet: cidrStrs(r.Src), NotSrcNet: cidrStrs(r.NotSrc), DstNet: cidrStrs(r.Dst), NotDstNet: cidrStrs(r.NotDst),
+			IpVersion: proto.IPVersion(r.IPVer)})
 	}
 	return out
+}
+
+func (c *cCfg) hasOtherFamily() bool {
+	for _, t := range c.Tiers {
+		for _, p := range t.Policies {
+			for i := range p {
+				if p[i].otherFamily() {
+					return true
+				}
+			}
+		}
+	}
+	for _, p := range c.Profiles {
+		for i := range p {
+			if p[i].otherFamily() {
+				return true
+			}
+		}
+	}
+	return false
 }
 
 func (c *cCfg) hasProfilePass() bool {
@@ -290,14 +361,14 @@ func alpVerdict(c *cCfg) string {
 		for pi, p := range t.Policies {
 			id := &proto.PolicyID{Name: polName(ti, pi), Kind: kindOf(t.staged(pi))}
 			info.IngressPolicies = append(info.IngressPolicies, id)
-			store.PolicyByID[types.ProtoToPolicyID(id)] = &proto.Policy{Tier: info.Name, InboundRules: protoRules(p)}
+			store.PolicyByID[types.ProtoToPolicyID(id)] = &proto.Policy{Tier: info.Name, InboundRules: protoRulesAlp(p)}
 		}
 		ep.Tiers = append(ep.Tiers, info)
 	}
 	for pi, p := range c.Profiles {
 		name := fmt.Sprintf("prof%d", pi)
 		ep.ProfileIds = append(ep.ProfileIds, name)
-		store.ProfileByID[types.ProfileID{Name: name}] = &proto.Profile{InboundRules: protoRules(p)}
+		store.ProfileByID[types.ProfileID{Name: name}] = &proto.Profile{InboundRules: protoRulesAlp(p)}
 	}
 	// the verdict is the status code of the real checkTiers (via the export hook); the public
 	// Evaluate is run as well: it must not fail where checkTiers reached a verdict
@@ -648,26 +719,43 @@ func exec(h *rt.H, op string) string {
 	isV := func(s string) bool { return s == "allow" || s == "deny" }
 	if isV(alp) && isV(bpf) && isV(ipt) && !(alp == bpf && bpf == ipt) {
 		sig := "dataplanes-disagree"
-		if c.hasProfilePass() && alp == bpf {
-			// attribute to the known finding only if app-policy and BPF agree and the SAME state with
-			// every profile pass rule turned into a deny rule (which is what pass means to those
-			// two) makes iptables agree as well
+		needPass, needFam := c.hasProfilePass(), c.hasOtherFamily()
+		if needPass || needFam {
+			// attribute to the known findings only if the SAME state, repaired for them - every profile pass
+			// rule turned into a deny rule (what pass means to BPF and app-policy), the checker given the
+			// rules as rules.FilterRuleToIPVersion leaves them - makes all three agree on the BPF verdict
 			d := parseLine(op)
-			for i := range d.Profiles {
-				for j := range d.Profiles[i] {
-					if a := d.Profiles[i][j].Act; a == "pass" || a == "next-tier" {
-						d.Profiles[i][j].Act = "deny"
+			if needPass {
+				for i := range d.Profiles {
+					for j := range d.Profiles[i] {
+						if a := d.Profiles[i][j].Act; a == "pass" || a == "next-tier" {
+							d.Profiles[i][j].Act = "deny"
+						}
 					}
 				}
 			}
-			if alpVerdict(d) == alp && bpfVerdict(d) == bpf && iptVerdict(d, false) == alp {
+			eval := func(x *cCfg, fam bool) (string, string, string) {
+				alpFilterFamily = fam
+				a := alpVerdict(x)
+				alpFilterFamily = false
+				return a, bpfVerdict(x), iptVerdict(x, false)
+			}
+			agree := func(a, b, i string) bool { return a == b && b == i && b == bpf }
+			if a, b, i := eval(d, false); needPass && agree(a, b, i) {
 				sig = "profile-pass"
+			} else if a, b, i := eval(c, true); needFam && agree(a, b, i) {
+				sig = "checker-ip-family"
+			} else if a, b, i := eval(d, true); needPass && needFam && agree(a, b, i) {
+				sig = "checker-ip-family+profile-pass"
 			}
 		}
 		h.OracleFail(sig, fmt.Sprintf("implementations disagree on the verdict: app-policy=%s bpf=%s iptables=%s", alp, bpf, ipt), map[string]any{"op": op})
 	}
 	return fmt.Sprintf("alp=%s bpf=%s ipt=%s", alp, bpf, ipt)
 }
+
+// famMix: the case also carries rules naming the other IP family (explicit ipVersion, IPv6 CIDRs).
+var famMix bool
 
 // CIDR pool of a case (encoded) and the flow addresses around their boundaries.
 var cidrPool = []string{"0a000000_8", "0a010000_16", "0a010200_24", "0a010203_32", "0a800000_9", "c0a80000_16",
@@ -733,6 +821,9 @@ func genRulesN(h *rt.H, profile bool, passP float64, pool []string) []cRule {
 				r.Pr, r.NotPr = rt.Pick(h, protos), rt.Pick(h, protos)
 			}
 		}
+		if famMix && h.Chance(0.25) {
+			r.IPVer = rt.Pick(h, []int{4, 6, 6})
+		}
 		if pool != nil && h.Chance(0.6) {
 			if h.Chance(0.35) {
 				r.Src = pickNets(h, pool, true)
@@ -746,6 +837,17 @@ func genRulesN(h *rt.H, profile bool, passP float64, pool []string) []cRule {
 			if h.Chance(0.35) {
 				r.NotDst = pickNets(h, pool, h.Chance(0.1))
 			}
+			if famMix {
+				// IPv6 CIDRs next to (or instead of) the IPv4 ones
+				for _, l := range []*[]string{&r.Src, &r.NotSrc, &r.Dst, &r.NotDst} {
+					if h.Chance(0.2) {
+						if h.Chance(0.5) {
+							*l = nil
+						}
+						*l = append(*l, rt.Pick(h, []string{"20010db8000000000000000000000000_32", "00000000000000000000000000000000_0", "fe800000000000000000000000000000_10"}))
+					}
+				}
+			}
 		}
 		out = append(out, r)
 	}
@@ -756,7 +858,9 @@ func genCase(h *rt.H) []string {
 	c := &cCfg{Src: defSrc, Dst: defDst}
 	// two thirds of the cases carry literal CIDR matches (positive and negated, both legs)
 	var pool []string
+	famMix = false
 	if h.Chance(0.66) {
+		famMix = h.Chance(0.3)
 		k := 2 + h.Intn(3)
 		for i := 0; i < k; i++ {
 			pool = append(pool, rt.Pick(h, cidrPool))
@@ -823,7 +927,7 @@ func main() {
 	renderer = rules.NewRenderer(rcfg, false)
 	h.Rule = "case = one workload policy state (0..3 tiers × 1..3 policies × 0..3 rules, 0..3 profiles × 0..3 rules; actions allow/deny/pass/next-tier/log, " +
 		"profile pass in a quarter of the cases; criteria protocol / not-protocol by number or name and, in two thirds of the cases, literal IPv4 CIDRs " +
-		"(source / not-source / destination / not-destination, 1..2 each, incl. /0, /32 and nested ones) with flow addresses chosen independently for source and destination around the CIDR boundaries) evaluated for 1..5 flow protocols x up to 3 address pairs by the real " +
+		"(source / not-source / destination / not-destination, 1..2 each, incl. /0, /32 and nested ones; in a third of those cases also rules naming the other IP family: explicit ipVersion 4/6, IPv6 CIDRs alone or mixed in) with flow addresses chosen independently for source and destination around the CIDR boundaries) evaluated for 1..5 flow protocols x up to 3 address pairs by the real " +
 		"app-policy checker, the real BPF builder+interpreter and the real iptables renderer+chain evaluator; non-trivial = the case reaches both verdicts or has a profile pass rule"
 	runCase := func(ops []string, tag string) {
 		h.Case(tag)
